@@ -52,7 +52,6 @@ Qed.
 Section Load.
   Variables (title count : bytes) (l0 : bytes) (rest : list bytes) (tail : bytes).
   Variables (n : Z) (fmt : nat * bool) (L : nat).
-  Hypothesis Htitle : title <> [].
   Hypothesis Htnl : no_nl title.
   Hypothesis Hcnl : no_nl count.
   Hypothesis Hcount : py_int (count ++ [NL]) = Ok n.
@@ -184,10 +183,10 @@ End Load.
 
 (* a file whose count line does not parse *)
 Lemma read_bad_count title count rest :
-  title <> [] -> no_nl title -> no_nl count -> py_int (count ++ [NL]) = Err EValue ->
+  no_nl title -> no_nl count -> py_int (count ++ [NL]) = Err EValue ->
   read_gro (title ++ [NL] ++ count ++ [NL] ++ rest) = Err EIO.
 Proof.
-  intros Ht Htnl Hcnl Hc. unfold read_gro, load.
+  intros Htnl Hcnl Hc. unfold read_gro, load.
   assert (E1 : readline_at (title ++ [NL] ++ count ++ [NL] ++ rest) 0 = (title ++ [NL], length title + 1)).
   { change 0 with (length (@nil ascii)).
     change (title ++ [NL] ++ count ++ [NL] ++ rest) with ([] ++ title ++ NL :: (count ++ [NL] ++ rest)).
